@@ -1,0 +1,159 @@
+//! Verification harness (feature `verif`): drives the real tree / proof code from an op script
+//! (`$VERIF_IN`) and writes one observation line per op to `$VERIF_OUT`.
+use std::{
+    fmt::Write as _,
+    panic::{
+        catch_unwind,
+        AssertUnwindSafe,
+    },
+};
+
+use super::*;
+
+fn hex(bytes: &[u8]) -> String {
+    let mut s = String::with_capacity(bytes.len() * 2);
+    for b in bytes {
+        write!(s, "{b:02x}").unwrap();
+    }
+    s
+}
+
+fn unhex(s: &str) -> Vec<u8> {
+    if s == "-" {
+        return Vec::new();
+    }
+    (0..s.len() / 2)
+        .map(|i| u8::from_str_radix(&s[2 * i..2 * i + 2], 16).unwrap())
+        .collect()
+}
+
+fn leaf(seed: u64, k: usize) -> Vec<u8> {
+    format!("L{seed}:{k}").into_bytes()
+}
+
+fn show<T: std::fmt::Debug>(r: std::thread::Result<T>) -> String {
+    match r {
+        Ok(v) => format!("{v:?}").replace(' ', ""),
+        Err(_) => "panic".to_string(),
+    }
+}
+
+#[test]
+fn drive() {
+    std::panic::set_hook(Box::new(|_| {}));
+    let input = std::fs::read_to_string(std::env::var("VERIF_IN").expect("VERIF_IN")).unwrap();
+    let mut out = String::new();
+    let mut tree = Tree::new();
+    for line in input.lines() {
+        let toks: Vec<&str> = line.split_whitespace().collect();
+        let Some(&cmd) = toks.first() else { continue };
+        match cmd {
+            "case" => writeln!(out, "{line}").unwrap(),
+            "tree" => {
+                let n: usize = toks[1].parse().unwrap();
+                let seed: u64 = toks[2].parse().unwrap();
+                let r = catch_unwind(AssertUnwindSafe(|| {
+                    let mut t = Tree::new();
+                    for k in 0..n {
+                        t.push(&leaf(seed, k));
+                    }
+                    t
+                }));
+                match r {
+                    Ok(t) => {
+                        writeln!(out, "tree len={}", t.len()).unwrap();
+                        tree = t;
+                    }
+                    Err(_) => writeln!(out, "tree panic").unwrap(),
+                }
+            }
+            "root" => match catch_unwind(AssertUnwindSafe(|| tree.root())) {
+                Ok(r) => writeln!(out, "root {}", hex(&r)).unwrap(),
+                Err(_) => writeln!(out, "root panic").unwrap(),
+            },
+            "proof" => {
+                let i: usize = toks[1].parse().unwrap();
+                match catch_unwind(AssertUnwindSafe(|| tree.construct_proof(i))) {
+                    Ok(Some(p)) => {
+                        let path: Vec<String> = p.audit_path().chunks(32).map(hex).collect();
+                        writeln!(
+                            out,
+                            "proof idx={} size={} path={}",
+                            p.leaf_index(),
+                            p.tree_size(),
+                            if path.is_empty() { "-".to_string() } else { path.join(",") }
+                        )
+                        .unwrap();
+                    }
+                    Ok(None) => writeln!(out, "proof none").unwrap(),
+                    Err(_) => writeln!(out, "proof panic").unwrap(),
+                }
+            }
+            // verify <path-hex (concatenated, any length)> <idx> <size> <leaf-hex> <root-hex>
+            "verify" => {
+                let path = unhex(toks[1]);
+                let idx: usize = toks[2].parse().unwrap();
+                let size: usize = toks[3].parse().unwrap();
+                let leaf = unhex(toks[4]);
+                let root: [u8; 32] = unhex(toks[5]).try_into().unwrap();
+                let r = catch_unwind(AssertUnwindSafe(|| {
+                    let p = Proof::unchecked()
+                        .audit_path(path)
+                        .leaf_index(idx)
+                        .tree_size(size)
+                        .try_into_proof();
+                    match p {
+                        Err(e) => {
+                            // formatting the error must not panic either
+                            let _ = format!("{e} {:?}", std::error::Error::source(&e).map(ToString::to_string));
+                            let kind = format!("{e:?}");
+                            let kind = if kind.contains("ZeroTreeSize") {
+                                "zero"
+                            } else if kind.contains("LeafIndexOutsideTree") {
+                                "outside"
+                            } else {
+                                "notmult"
+                            };
+                            format!("err={kind}")
+                        }
+                        Ok(p) => {
+                            let ok = p.verify(&leaf, root);
+                            let rec = p.reconstruct_root_with_leaf(&leaf);
+                            format!("ok={ok} rec={}", hex(&rec))
+                        }
+                    }
+                }));
+                match r {
+                    Ok(s) => writeln!(out, "verify {s}").unwrap(),
+                    Err(_) => writeln!(out, "verify panic").unwrap(),
+                }
+            }
+            // direct calls of the private index functions
+            "idx" => {
+                let a: Vec<usize> = toks[2..].iter().map(|t| t.parse().unwrap()).collect();
+                let r = match toks[1] {
+                    "last_set_bit" => show(catch_unwind(|| last_set_bit(a[0]))),
+                    "last_zero_bit" => show(catch_unwind(|| last_zero_bit(a[0]))),
+                    "perfect_parent" => show(catch_unwind(|| perfect_parent(a[0]))),
+                    "perfect_left_child" => show(catch_unwind(|| perfect_left_child(a[0]))),
+                    "perfect_right_child" => show(catch_unwind(|| perfect_right_child(a[0]))),
+                    "complete_root" => show(catch_unwind(|| complete_root(a[0]))),
+                    "complete_parent" => show(catch_unwind(|| complete_parent(a[0], a[1]))),
+                    "checked_complete_parent" => {
+                        show(catch_unwind(|| checked_complete_parent(a[0], a[1])))
+                    }
+                    "complete_right_child" => show(catch_unwind(|| complete_right_child(a[0], a[1]))),
+                    "complete_parent_and_sibling" => {
+                        show(catch_unwind(|| complete_parent_and_sibling(a[0], a[1])))
+                    }
+                    "is_perfect" => show(catch_unwind(|| is_perfect(a[0]))),
+                    "is_leaf_index_in_tree" => show(catch_unwind(|| is_leaf_index_in_tree(a[0], a[1]))),
+                    other => panic!("unknown fn {other}"),
+                };
+                writeln!(out, "idx {} {r}", toks[1]).unwrap();
+            }
+            other => panic!("unknown op {other}"),
+        }
+    }
+    std::fs::write(std::env::var("VERIF_OUT").expect("VERIF_OUT"), out).unwrap();
+}
